@@ -100,3 +100,12 @@ def R4(body, ctx):
         mask = code_mask(body)
         n += 1
     return body, n
+
+
+def SELF_PARAM(body, ctx):
+    """A method of an impl on a foreign type (`impl SequentialSpec for Vec<T>`) is verified as a free
+    function whose first parameter `self_` replaces `self`; every `self` token in the body is renamed.
+    The replacement signature is given by the sidecar (`sig:`) and is checked against the real one
+    only in its parameter names and types (the real signature is kept in the evidence)."""
+    new, n = _ident_replace(body, 'self', 'self_')
+    return new, max(n, 1)
